@@ -1350,10 +1350,49 @@ nni_dialer_timer_start(nni_dialer *d)
 	nni_mtx_unlock(&s->s_mx);
 }
 
+// The protocol's pipe_start must not overlap with the reaper tearing the
+// same pipe down (pipe_close/pipe_stop would run before the protocol has
+// linked the pipe, and the pipe would be freed while still linked).  A
+// pipe that is already closed is not started; a close that arrives while
+// pipe_start runs is held back in pipe_reap until it has finished.
+static bool
+pipe_start_begin(nni_sock *s, nni_pipe *p)
+{
+	bool ok;
+	nni_mtx_lock(&s->s_mx);
+	ok = !nni_pipe_is_closed(p);
+	if (ok) {
+		p->p_starting = true;
+	}
+	nni_mtx_unlock(&s->s_mx);
+	return (ok);
+}
+
+static void
+pipe_start_end(nni_sock *s, nni_pipe *p)
+{
+	nni_mtx_lock(&s->s_mx);
+	p->p_starting = false;
+	nni_cv_wake(&s->s_cv);
+	nni_mtx_unlock(&s->s_mx);
+}
+
+void
+nni_pipe_start_wait(nni_pipe *p)
+{
+	nni_sock *s = p->p_sock;
+	nni_mtx_lock(&s->s_mx);
+	while (p->p_starting) {
+		nni_cv_wait(&s->s_cv);
+	}
+	nni_mtx_unlock(&s->s_mx);
+}
+
 static void
 dialer_start_pipe(nni_dialer *d, nni_pipe *p)
 {
 	nni_sock *s = d->d_sock;
+	int       rv;
 
 	nni_mtx_lock(&s->s_mx);
 	d->d_pipe     = p;
@@ -1367,7 +1406,7 @@ dialer_start_pipe(nni_dialer *d, nni_pipe *p)
 
 	nni_pipe_run_cb(p, NNG_PIPE_EV_ADD_PRE);
 
-	if (nni_pipe_is_closed(p)) {
+	if (!pipe_start_begin(s, p)) {
 #ifdef NNG_ENABLE_STATS
 		nni_stat_inc(&d->st_reject, 1);
 		nni_stat_inc(&s->st_rejects, 1);
@@ -1383,7 +1422,9 @@ dialer_start_pipe(nni_dialer *d, nni_pipe *p)
 		return;
 	}
 
-	if (p->p_proto_ops.pipe_start(p->p_proto_data) != 0) {
+	rv = p->p_proto_ops.pipe_start(p->p_proto_data);
+	pipe_start_end(s, p);
+	if (rv != 0) {
 #ifdef NNG_ENABLE_STATS
 		nni_stat_inc(&d->st_reject, 1);
 		nni_stat_inc(&s->st_rejects, 1);
@@ -1481,6 +1522,7 @@ static void
 listener_start_pipe(nni_listener *l, nni_pipe *p)
 {
 	nni_sock *s = l->l_sock;
+	int       rv;
 
 #ifdef NNG_ENABLE_STATS
 	nni_stat_inc(&l->st_pipes, 1);
@@ -1489,7 +1531,7 @@ listener_start_pipe(nni_listener *l, nni_pipe *p)
 
 	nni_pipe_run_cb(p, NNG_PIPE_EV_ADD_PRE);
 
-	if (nni_pipe_is_closed(p)) {
+	if (!pipe_start_begin(s, p)) {
 #ifdef NNG_ENABLE_STATS
 		nni_stat_inc(&l->st_reject, 1);
 		nni_stat_inc(&s->st_rejects, 1);
@@ -1497,7 +1539,9 @@ listener_start_pipe(nni_listener *l, nni_pipe *p)
 		nni_pipe_rele(p);
 		return;
 	}
-	if (p->p_proto_ops.pipe_start(p->p_proto_data) != 0) {
+	rv = p->p_proto_ops.pipe_start(p->p_proto_data);
+	pipe_start_end(s, p);
+	if (rv != 0) {
 #ifdef NNG_ENABLE_STATS
 		nni_stat_inc(&l->st_reject, 1);
 		nni_stat_inc(&s->st_rejects, 1);
